@@ -125,7 +125,7 @@ func (th *thread) next(timeout time.Duration) (op string, got bool) {
 	th.launch()
 	for {
 		if th.returned {
-			if th.run == 0 {
+			if th.run <= 0 {
 				// synchronous part is over and no task is open: only a stray asynchronous call could still come
 				select {
 				case op = <-th.g.ann:
@@ -700,7 +700,7 @@ type runner struct {
 
 func (r *runner) violation(sig, what string, detail M) {
 	r.viol[sig]++
-	if r.viol[sig] <= 1 {
+	if r.viol[sig] <= 1 && len(r.viol) <= 8 { // one report per class of failure, a handful per run
 		vtrace.Violation(prop, prop+"/"+sig, what, detail)
 	}
 }
